@@ -287,6 +287,24 @@ Fixpoint contract_loop (rec_r rec_p rec_g : list string) (mol_count lr : Z) (cs 
 
 Definition roles := (list string * list string * list string)%type.     (* reactants, reagents, products *)
 
+(* the body of `if contract:` *)
+Definition contract_roles (rec_r rec_p rec_g : list string) (contract : list (list Z)) : pyres roles :=
+  let lr := Z.of_nat (List.length rec_r) in
+  let lp := Z.of_nat (List.length rec_p) in
+  let mol_count := lr + lp + Z.of_nat (List.length rec_g) in
+  let st0 := mkC (repeat None (Z.to_nat mol_count))
+                 (zrange 0 lr) (zrange (mol_count - lp) mol_count) (zrange lr (mol_count - lp)) in
+  match contract_loop rec_r rec_p rec_g mol_count lr contract st0 with
+  | Err e => Err e
+  | Ok st =>
+      let new1 := fold_left (fun nw x => zupd nw x (Some (py_get rec_r x))) (cs_r st) (cs_new st) in
+      let new2 := fold_left (fun nw x => zupd nw x (Some (py_get rec_p (x - mol_count)))) (cs_p st) new1 in
+      let new3 := fold_left (fun nw x => zupd nw x (Some (py_get rec_g (x - lr)))) (cs_g st) new2 in
+      Ok (somes (py_slice new3 None (Some lr)),
+          somes (py_slice new3 (Some lr) (Some (- lp))),
+          somes (py_slice new3 (Some (- lp)) None))
+  end.
+
 (* the reaction branch of smiles() up to the molecule parser: which strings are handed to parser(smiles_tokenize(x)).
    None = the molecule branch (no '>' in the string), not modelled here *)
 Definition read_core (ignore : bool) (smi : string) (contract : option (list (list Z))) : pyres (option roles) :=
@@ -295,22 +313,11 @@ Definition read_core (ignore : bool) (smi : string) (contract : option (list (li
   | [reactants; reagents; products] =>
       match role_pieces ignore reactants, role_pieces ignore products, role_pieces ignore reagents with
       | Some rec_r, Some rec_p, Some rec_g =>
-          let lr := Z.of_nat (List.length rec_r) in
-          let lp := Z.of_nat (List.length rec_p) in
-          let mol_count := lr + lp + Z.of_nat (List.length rec_g) in
           match contract with
           | Some (c :: cs) =>                                (* if contract: *)
-              let st0 := mkC (repeat None (Z.to_nat mol_count))
-                             (zrange 0 lr) (zrange (mol_count - lp) mol_count) (zrange lr (mol_count - lp)) in
-              match contract_loop rec_r rec_p rec_g mol_count lr (c :: cs) st0 with
+              match contract_roles rec_r rec_p rec_g (c :: cs) with
               | Err e => Err e
-              | Ok st =>
-                  let new1 := fold_left (fun nw x => zupd nw x (Some (py_get rec_r x))) (cs_r st) (cs_new st) in
-                  let new2 := fold_left (fun nw x => zupd nw x (Some (py_get rec_p (x - mol_count)))) (cs_p st) new1 in
-                  let new3 := fold_left (fun nw x => zupd nw x (Some (py_get rec_g (x - lr)))) (cs_g st) new2 in
-                  Ok (Some (somes (py_slice new3 None (Some lr)),
-                            somes (py_slice new3 (Some lr) (Some (- lp))),
-                            somes (py_slice new3 (Some (- lp)) None)))
+              | Ok r => Ok (Some r)
               end
           | _ => Ok (Some (rec_r, rec_g, rec_p))
           end
@@ -327,6 +334,7 @@ Definition read_rxn (ignore : bool) (data : string) : pyres (option roles * list
       let '(radicals, contract) := parse_cx rest in
       match read_core ignore smi contract with
       | Err e => Err e
+      | Ok (Some ([], [], [])) => Err ValueError      (* ReactionContainer.__init__: 'At least one graph object required' *)
       | Ok r => Ok (r, radicals)
       end
   end.
